@@ -2886,7 +2886,7 @@ impl<K: Hash + Eq, V> Cache<K, V, RandomState> {
 //@@ END
 }
 // ---------------- src/unsync/iter.rs: iteration (C01, C05, C06 for `iter`) ----------------
-//@@ STRUCT file=src/unsync/iter.rs name=Iter
+//@@ STRUCT file=src/unsync/iter.rs name=Iter degrade=1
 #[verifier::reject_recursive_types(K)]
 #[verifier::reject_recursive_types(V)]
 #[verifier::reject_recursive_types(S)]
